@@ -7,7 +7,7 @@ import PlinioVerif.Model.SuperNet
 returns for the node's module at the node's own output shape, 0 for non-modules; `theta` = the
 coefficients the combiners currently hold, `alpha` the raw ones) answers
 
-`mix=<q> lo=<q> hi=<q> hard=<q> fixed=<q> export=<q|err> sameu=<0|1> selok=<0|1>`
+`mix=<q> lo=<q> hi=<q> hard=<q> fixed=<q> export=<q|err> sameu=<0|1> selok=<0|1> names=<0|1> sites=<0|1>`
 
 * `mix`    `SuperNet.get_cost` with the given `theta`
 * `lo/hi`  the cost of the cheapest / most expensive selection (one-hot at the cheapest / most
@@ -16,7 +16,9 @@ coefficients the combiners currently hold, `alpha` the raw ones) answers
 * `fixed`  what `full_cost=True` adds (cost of the layers outside choice blocks)
 * `export` the metric computed from scratch on the exported graph (model of `export_graph`)
 * `sameu`  every call site of a leaf module charges the same unit cost
-* `selok`  hypothesis `SelectionOk` of the C06 theorems holds for the arg-max selection -/
+* `selok`  hypothesis `SelectionOk` of the C06 theorems holds for the arg-max selection
+* `names`  hypothesis `NamesSane` of `hard_cost_eq_export_cost` holds (arg-max selection, model export)
+* `sites`  hypothesis `SitesSane` holds (once per call site, same unit cost at every call site) -/
 open PlinioVerif PlinioVerif.Proto PlinioVerif.SuperNet
 
 def parseArgs? (s : String) : Option (List Nat) :=
@@ -65,10 +67,10 @@ def handle (line : String) : String :=
       let hi := snCost shared full (sel (extremeSelection (· > ·) u g)) u g
       let hard := snCost shared full (sel win) u g
       let fixed := snCost shared true θ u g - snCost shared false θ u g
-      let ex := match exportGraph win g with
-        | some g' => showRat (plainCost shared u g')
-        | none => "err"
-      s!"mix={showRat mix} lo={showRat lo} hi={showRat hi} hard={showRat hard} fixed={showRat fixed} export={ex} sameu={showBool (sameUnitCost u g)} selok={showBool (selectionOkB g win)}"
+      let (ex, names) := match exportGraph win g with
+        | some g' => (showRat (plainCost shared u g'), namesSaneB win g g')
+        | none => ("err", false)
+      s!"mix={showRat mix} lo={showRat lo} hi={showRat hi} hard={showRat hard} fixed={showRat fixed} export={ex} sameu={showBool (sameUnitCost u g)} selok={showBool (selectionOkB g win)} names={showBool names} sites={showBool (sitesSaneB win u g)}"
     | _, _, _, _, _, _ => "bad-request"
   | _ => "bad-request"
 
